@@ -417,6 +417,18 @@ type ClusterShardMapping struct {
 
 	// Node to execute on.
 	NodeID uint64
+
+	mu  sync.Mutex
+	err error
+}
+
+// Err returns the first error met while asking the remote nodes for a field's type.
+// MapType itself cannot report it; without this check a field known only to nodes that
+// cannot be reached looks like a field that does not exist and the query returns nothing.
+func (a *ClusterShardMapping) Err() error {
+	a.mu.Lock()
+	defer a.mu.Unlock()
+	return a.err
 }
 
 func (a *ClusterShardMapping) FieldDimensions(m *influxql.Measurement) (fields map[string]influxql.DataType, dimensions map[string]struct{}, err error) {
@@ -495,7 +507,14 @@ func (a *ClusterShardMapping) MapType(m *influxql.Measurement, field string) inf
 	for _, sg := range a.RemoteShardMapping[source] {
 		sg := sg
 		g.Go(func() error {
-			results := sg.MapType(m, field)
+			results, err := sg.MapType(m, field)
+			if err != nil {
+				a.mu.Lock()
+				if a.err == nil {
+					a.err = err
+				}
+				a.mu.Unlock()
+			}
 			if len(results) > 0 {
 				mu.Lock()
 				types = append(types, results...)
@@ -963,13 +982,13 @@ func (a *remoteShardGroup) FieldDimensions(m *influxql.Measurement) ([]FieldDime
 	return nil, err
 }
 
-func (a *remoteShardGroup) MapType(m *influxql.Measurement, field string) []influxql.DataType {
+func (a *remoteShardGroup) MapType(m *influxql.Measurement, field string) ([]influxql.DataType, error) {
 	typ, err := a.executor.MapType(a.nodeID, a.shards.shardIDs(), m, field)
 	if err == nil {
-		return []influxql.DataType{typ}
+		return []influxql.DataType{typ}, nil
 	}
 	if !a.retry {
-		return nil
+		return nil, err
 	}
 	var types []influxql.DataType
 	a.dirty.Store(a.nodeID, struct{}{})
@@ -993,10 +1012,10 @@ func (a *remoteShardGroup) MapType(m *influxql.Measurement, field string) []infl
 		}
 		err = g.Wait()
 		if err == nil {
-			return types
+			return types, nil
 		}
 	}
-	return types
+	return types, err
 }
 
 func (a *remoteShardGroup) CreateIterator(ctx context.Context, m *influxql.Measurement, opt query.IteratorOptions) ([]query.Iterator, error) {
